@@ -213,7 +213,7 @@ func parsePacketAdaptationField(i *astikit.BytesIterator) (a *PacketAdaptationFi
 				err = fmt.Errorf("astits: fetching next byte failed: %w", err)
 				return
 			}
-			a.SpliceCountdown = int(b)
+			a.SpliceCountdown = int(int8(b))
 		}
 
 		// Transport private data
